@@ -338,8 +338,12 @@ def translate(repo=None):
         fail(fn, '_lincomb_impl has %d top-level statements, expected 4' % len(body))
     if not same(body[0], 'import scipy.linalg'):
         fail(body[0], 'expected import scipy.linalg')
-    if not same(body[1], 'size = native(x1.size)'):
-        fail(body[1], 'expected size = native(x1.size)')
+    size_forms = {'size = native(x1.size)': 'SzTotal', 'size = x1.size': 'SzTotal', 'size = int(x1.size)': 'SzTotal',
+                  'size = len(x1)': 'SzAxis0', 'size = native(len(x1))': 'SzAxis0', 'size = x1.shape[0]': 'SzAxis0',
+                  'size = native(x1.shape[0])': 'SzAxis0'}
+    size_expr = size_forms.get(ast.unparse(body[1]))
+    if size_expr is None:
+        fail(body[1], 'expected size = native(x1.size) (or len(x1) / x1.shape[0])')
 
     # ---- regime dispatch
     r = body[2]
@@ -389,6 +393,8 @@ def translate(repo=None):
          'Import ListNotations.', 'Local Open Scope Z_scope.', '',
          'Definition threshold_small : Z := %d.' % consts['THRESHOLD_SMALL'],
          'Definition threshold_medium : Z := %d.' % consts['THRESHOLD_MEDIUM'], '',
+         '(* `size`: the number of entries x1.size (SzTotal) or len(x1), the length of axis 0 (SzAxis0) *)',
+         'Definition size_expr : sizex := %s.' % size_expr, '',
          '(* which of the three bodies runs; [floating] = is_floating_dtype(out.dtype),',
          '   [blas_ok] = _blas_is_applicable(x1.data, x2.data, out.data) *)',
          'Definition regime_of (size : Z) (floating blas_ok : bool) : regime :=',
